@@ -93,4 +93,17 @@ CHECKS["C13"] = {
     "engine": "tlc+vh",
 }
 
+CHECKS["C19"] = {
+    "category": "model_checking",
+    "text": "spec/Display.tla gives the documented notation as a structural recursion on the RFC 8949 grammar (Diag) and the token stream of the "
+            "Tokenizer; spec/DisplayM.tla transcribes the control-stack machine of the Display impl. TLC checks on every sequence of token groups up "
+            "to a bound that the machine renders well-formed items exactly as documented and that output, work and stack are bounded by the input "
+            "length (the pinned machine violates the bound on array(1000) with no elements - finding F9, repaired). Every explored input is displayed "
+            "by the real code into a size-limited sink; generated, truncated, mutated and random inputs are validated by TLC against Diag / OutBound.",
+    "design_ref": "DESIGN.md section 6, C19 and section 7 (F9)",
+    "note": "Trusted: TLC; float-to-decimal formatting is Rust's `{:e}` on the bit pattern named by the specification.",
+    "technique": "TLA+ spec of the notation (Display) and of the control-stack machine (DisplayM) + TLC refinement check + replay + trace validation",
+    "engine": "tlc+vh",
+}
+
 NOT_YET = "check not built yet in this round (planned in DESIGN.md section 10); not claimed until it exists"
